@@ -75,6 +75,10 @@ def determinism():
     return ok and same
 
 
+# changes that are only reachable through the seam's extra scheduling points (DESIGN 10.15)
+NEEDS_EXTRA_POINTS = {"complete_last_worker_sorts_by_strong_count", "R9C14"}
+
+
 def _scratch_worktree(tmp):
     wt = os.path.join(tmp, "wt")
     subprocess.check_call(["git", "-C", D.REPO, "worktree", "add", "-q", "--detach", wt, "HEAD"])
@@ -142,6 +146,14 @@ def sensitivity(only=None, with_suite=False):
                 # and DESIGN.md); reported, not counted as a failure of the self-test
                 verdict = "OUT OF REACH, as recorded (not detected): " + meta["out_of_reach"][:160]
             sigs = [ln.strip() for ln in r.stdout.splitlines() if ln.strip().startswith("signature:")]
+            if verdict.startswith("detected") and name.split("/")[-1] in NEEDS_EXTRA_POINTS:
+                # which scheduling points made the difference: the same batch with the seam's extra points (inside
+                # critical sections, at Arc reference counts) switched off must be silent
+                env2 = dict(env, VERIF_NO_EXTRA_POINTS="1")
+                r2 = subprocess.run([os.path.join(D.ROOT, "check"), pid, "quick"], env=env2, stdout=subprocess.PIPE,
+                                    stderr=subprocess.STDOUT, text=True)
+                verdict += "; without the seam's extra scheduling points: %s" % (
+                    "silent (they are what reaches it)" if r2.returncode == 0 else "exit %d" % r2.returncode)
             D.log("SENSITIVITY %s %s: %s%s (%.0fs) %s" % (pid, name, verdict, suite, time.time() - t0, "; ".join(sigs)[:300]))
             results.append((pid, name, verdict))
     finally:
